@@ -3,27 +3,26 @@ package main
 import (
 	"fmt"
 	"os"
-	"runtime/pprof"
-	"syscall"
-	"time"
+	"strings"
 
 	"verifharness/c20lib"
 )
 
-func cpu() time.Duration {
-	var ru syscall.Rusage
-	syscall.Getrusage(syscall.RUSAGE_SELF, &ru)
-	return time.Duration(ru.Utime.Nano() + ru.Stime.Nano())
-}
-
+// usage: tprobe <cfg> "op1;op2;..."   (part B)   or   tprobe A:<mode> "op1;op2"
 func main() {
-	f, _ := os.Create("/tmp/c20t/cpu.prof")
-	pprof.StartCPUProfile(f)
-	for i := 0; i < 3; i++ {
-		t0, c0 := time.Now(), cpu()
-		c20lib.ExecB("1e3x1e3", false, []int{4, 0, 0})
-		fmt.Println("execB wall", time.Since(t0), "cpu", cpu()-c0)
+	c20lib.Debug = true
+	cfg, ops := os.Args[1], strings.Split(os.Args[2], ";")
+	if strings.HasPrefix(cfg, "A:") {
+		res := c20lib.ExecA(cfg[2:], true, c20lib.PathA(ops))
+		fmt.Printf("ok=%v viols:\n", res.OK)
+		for _, v := range res.Viols {
+			fmt.Printf("  %s: %s\n", v.Sig, v.What)
+		}
+		return
 	}
-	pprof.StopCPUProfile()
-	f.Close()
+	res := c20lib.ExecB(cfg, true, c20lib.PathB(cfg, ops))
+	fmt.Printf("ok=%v viols:\n", res.OK)
+	for _, v := range res.Viols {
+		fmt.Printf("  %s: %s\n", v.Sig, v.What)
+	}
 }
